@@ -21,6 +21,9 @@ const marker = "managed by NetSPoC"
 func genBase(rt *rapid.T, fam string) *Scenario {
 	sc := &Scenario{Family: fam, Front: "drc", Verb: "approve", Hostname: "router",
 		BannerText: "***********\n** " + marker + " **\n***********\n", CheckBanner: "NetSPoC", Password: "secret", Target: map[string]string{}}
+	// Invocation shape of drc (ignored by the do-approve front-end).
+	sc.NoLogDir = rapid.IntRange(0, 3).Draw(rt, "noLogDir") == 0
+	sc.Quiet = rapid.IntRange(0, 3).Draw(rt, "quiet") == 0
 	switch fam {
 	case "asa":
 		p := asam.GenPair(rt, asam.GenOpts{MaxLines: 4})
